@@ -157,7 +157,7 @@ TEXT = {
     'C11': {'level': 'for every shape/ignore specification in the bound, z3 shows keys equal <=> bindings equal outside the ignored arguments', 'note': _N, 'technique': _T},
     'C17': {'level': 'for every shape/ignore specification/keymap in the bound, the key is invariant under every iteration order of the sets built while computing it (symbolic permutations, z3-closed)', 'note': _N, 'technique': _T},
     'C12': {'level': 'for every structure in the family, every dynamic type of every leaf and every tol, the key computed by the real code equals the key of the oracle-rounded arguments (z3 validity over uninterpreted R), the function receives the original objects, tol=None rounds nothing and no structure makes the call fail', 'note': _N, 'technique': _T},
-    'C03': {'level': 'for every pre-state reachable by the write prefix and every operation with symbolic arguments within the bound, the real archive returns/raises what the dict oracle does and holds the same contents afterwards (z3 validity), failing operations leave contents unchanged, sibling archives are untouched, copy() is equal and independent', 'note': _N, 'technique': _T},
+    'C03': {'level': 'CrossHair kernels (symbolic str keys up to 3-4 characters): directory names of distinct dash-free keys differ, a separator-free key is listed as itself, _sqlname round-trips; then for every pre-state reachable by the write prefix and every operation with symbolic arguments within the bound, the real archive returns/raises what the dict oracle does and holds the same contents afterwards (z3 validity), failing operations leave contents unchanged, sibling archives are untouched, copy() is equal and independent', 'note': _N, 'technique': _T},
     'C04': {'level': 'for every write history within the bound and every way of obtaining a second handle, the second handle holds exactly the oracle contents (snapshot values, original key types, same settings) and writes through it reach the first handle', 'note': _N, 'technique': _T},
     'C16': {'level': 'within the history bounds, a raising call propagates the same exception object after one evaluation and leaves memory, archive and statistics unchanged; every later observable equals that of a twin that never saw the call; safe decorators return F(args) for every hostile witness under every keymap', 'note': _N, 'technique': _T},
     'C18': {'level': 'within the history bounds, key()/lookup() agree with what calls store, evaluate nothing, change nothing, and a twin that was never probed is indistinguishable afterwards', 'note': _N, 'technique': _T},
